@@ -579,6 +579,14 @@ def crp(rp) -> str:
             f"{ctv(rp['step'])} {core.cz(int(rp['count']))}))")
 
 
+def cafter(o) -> str:
+    """The detector state found right after the run (compared with the state the object-level model leaves);
+    not available for an Observation (it runs on copies) and not compared after an exception raised mid-run."""
+    if "d1" not in o or (o.get("stage") is not None and o.get("executed", 0) > 0):
+        return "None"
+    return f"(Some ({cdet(o['d1'])}, {crp(o.get('rp1'))}))"
+
+
 def emit_case(c, o) -> str:
     c = eff(c)
     if o.get("stage") is None:
@@ -589,7 +597,8 @@ def emit_case(c, o) -> str:
     return ("{| k_form := " + ("FNdarray" if c["form"] == "ndarray" else "FList") +
             f"; k_raw := {craw(c['form'], case_times(c))}; k_start := {ctv(c['start'])}; "
             f"k_nd := {core.cbool(bool(c['nd']))}; k_ops := {core.clist(cop(k, a) for k, a in c.get('ops', []))}; "
-            f"k_d0 := {cdet(o['d0'])}; k_rp0 := {crp(o.get('rp0'))}; k_plan := {plan}; k_obs := {obs} |}}")
+            f"k_d0 := {cdet(o['d0'])}; k_rp0 := {crp(o.get('rp0'))}; k_plan := {plan}; k_obs := {obs}; "
+            f"k_after := {cafter(o)} |}}")
 
 
 def emit_file(pairs, binary64=False) -> str:
@@ -602,7 +611,8 @@ def emit_file(pairs, binary64=False) -> str:
             "From PyxelGen Require Import Gen_C02.\nImport ListNotations.\n"
             f"Definition cases : list c02_case := [\n  {body}\n].\n"
             f"Eval vm_compute in mismatches{sfx} src_guards src_empty src_set_readout cases.\n"
-            f"Eval vm_compute in violations{sfx} cases.\n")
+            f"Eval vm_compute in violations{sfx} cases.\n"
+            f"Eval vm_compute in after_differs{sfx} src_guards src_empty src_set_readout cases.\n")
 
 
 # ------------------------------------------------------------------------------------------ classification
@@ -782,11 +792,15 @@ def evaluate(ctx: Ctx, cases, tag="c", count=True):
     for name in sorted(files):
         ok, evals, se = res[name]
         chunk = chunks[name]
-        if not ok or len(evals) != 2:
+        if not ok or len(evals) != 3:
             ctx.broken.append(Broken("correspondence", f"case file {name}.v did not evaluate", core.tail(se, 15)))
             continue
         mism += [chunk[i] for i in core.parse_int_list(evals[0])]
         viol += [chunk[i] for i in core.parse_int_list(evals[1])]
+        if count:
+            # informational: does the detector object end up in the state the object-level model predicts?
+            ctx.count("state_after_run_compared", sum(1 for _, o in chunk if cafter(o) != "None"))
+            ctx.count("state_after_run_differs_from_model", len(core.parse_int_list(evals[2])))
     if count:
         for c, o in pairs:
             ctx.count("evaluations")
@@ -1032,7 +1046,7 @@ def replay(ctx: Ctx, rp: dict) -> int:
     base = {k: v for k, v in case.items() if k not in ("view", "sweep_value")}
     pairs = expand(base, o)       # the run, its second clock view, every pipeline of an Observation
     ok, evals, se = core.coq_eval(ctx, "replay", emit_file(pairs, bool(case.get("float"))))
-    if not ok or len(evals) != 2:
+    if not ok or len(evals) != 3:
         print("case file did not evaluate:", core.tail(se, 10))
         return 1
     idx = core.parse_int_list(evals[1])
